@@ -254,3 +254,91 @@ func mdText() string {
 	}
 	return "caller's outgoing metadata {none, " + strings.Join(l, " | ") + "}"
 }
+
+// ---------------------------------------------------------------- the request context's own deadline
+
+// preDim is one value of the dimension "the context of the *http.Request that
+// is handed to the library's HTTP handler already carries a deadline" (the
+// handlers are mounted behind http.TimeoutHandler or a middleware that gives
+// every request a budget, or the http.Server's BaseContext / ConnContext has a
+// deadline). Label "" = it has none, which is what http.Server and httptest
+// give by default. D is the distance of that deadline from the instant the
+// request context is made, right before the library's handler is entered;
+// negative = it has expired already. Every absolute value is "later than the
+// caller's" for the shorter and "earlier than the caller's" for the longer
+// members of the header grammar / the duration grammar, so crossing it with
+// those grammars covers both relations for every value.
+type preDim struct {
+	Label string
+	D     time.Duration
+}
+
+var preGrammar = []preDim{
+	{"expired", -time.Second},
+	{"50ms", 50 * time.Millisecond},
+	{"1h", time.Hour},
+	{"200y", 200 * year},
+}
+
+// How the deadline gets onto the request context.
+const (
+	mountCtx = "ctx"            // the request's context is a context.WithDeadline (BaseContext, ConnContext, budget middleware)
+	mountTH  = "timeouthandler" // the library's handler is wrapped in net/http's http.TimeoutHandler
+)
+
+// preCase is the part of a case that says which request context the library's
+// handler gets.
+type preCase struct {
+	Pre   string `json:"ctx_deadline,omitempty"` // label of the preDim, "" = none
+	PreNs int64  `json:"ctx_deadline_ns,omitempty"`
+	Mount string `json:"mount,omitempty"`
+}
+
+var noPre = preCase{}
+
+// allPres: every value of preGrammar as a plain context deadline, then every
+// value that lies ahead behind http.TimeoutHandler (with a limit that has
+// passed already TimeoutHandler answers 503 itself, concurrently with the
+// handler: which of the two the client sees is not defined, and it says nothing
+// about the library).
+func allPres() []preCase {
+	var out []preCase
+	for _, p := range preGrammar {
+		out = append(out, preCase{p.Label, int64(p.D), mountCtx})
+	}
+	for _, p := range preGrammar {
+		if p.D > 0 {
+			out = append(out, preCase{p.Label, int64(p.D), mountTH})
+		}
+	}
+	return out
+}
+
+// ctxPres: the plain context deadlines only.
+func ctxPres() []preCase {
+	var out []preCase
+	for _, p := range allPres() {
+		if p.Mount == mountCtx {
+			out = append(out, p)
+		}
+	}
+	return out
+}
+
+func (p preCase) label() string {
+	if p.Pre == "" {
+		return ""
+	}
+	if p.Mount == mountTH {
+		return p.Pre + "@" + mountTH
+	}
+	return p.Pre
+}
+
+func preText() string {
+	var l []string
+	for _, p := range preGrammar {
+		l = append(l, p.Label)
+	}
+	return "deadline already on the request context {none, " + strings.Join(l, ", ") + "} (distance from the instant the request context is made; expired = 1 s in the past), put there by {context.WithDeadline on the request's context, http.TimeoutHandler around the library's handler (values ahead only)}"
+}
